@@ -101,8 +101,40 @@ def run_support(ck, F):
             ck.ok("C10.support-agreement", "%s:comparator" % name, "rank=%s sort=%s comparator=%s" % (r, s, c))
 
 
+def run_child_opts(ck, F):
+    ck.rule("C10.child-opts", "every comparator built for a nested child (list, struct, map, dictionary, run-end, union values) receives child_opts(opts): the parent "
+            "applies descending to the child's result, so the child must be built ascending with nulls_first pre-flipped", floor=8)
+    from .mirlib import op_local
+    c = F.crate("arrow_cmp")
+    for fn in c.fns:
+        if "mir" not in fn:
+            continue
+        root = fn.get("parent") if fn["kind"] == "Closure" else fn["id"]
+        if flow.norm(root) == "arrow_cmp::make_comparator":
+            continue
+        b = Body(fn)
+        for bb, t in b.calls():
+            if flow.norm(callee(t) or "") != "arrow_cmp::make_comparator" or len(t["args"]) < 3:
+                continue
+            l = op_local(t["args"][2])
+            ok = False
+            if l is not None:
+                _, calls = b.back_slice(l)
+                ok = any(flow.norm(callee(c_) or "").endswith("::child_opts") for _, c_ in calls)
+                if not ok and fn["kind"] == "Closure":
+                    for pb, blk, loc in flow.closure_creations(F, fn):
+                        if any(flow.norm(callee(c_) or "").endswith("::child_opts") for _, c_ in pb.calls()):
+                            ok = True
+            key = flow.norm(root)
+            if ok:
+                ck.ok("C10.child-opts", key, "child comparator built with child_opts(opts)")
+            else:
+                ck.bad("C10.child-opts", key, "%s builds the comparator of a nested child with the parent's options instead of child_opts(opts): descending / nulls_first are applied twice" % fn["id"], b.loc(bb))
+
+
 def run(ck, tier):
     F = factsmod.Facts("ws")
+    run_child_opts(ck, F)
     run_partial(ck, F)
     run_float_native(ck, F)
     run_support(ck, F)
